@@ -149,18 +149,43 @@ Execute(who, as, via, id, pg, sp) ==
   /\ jobs' = jobs
   /\ Done(Rec("Execute", who, as, via, id, 0, 0, 0, sp, FALSE, FALSE, pg), w)
 
+(* Perturbations: executions on a state branch that is NEVER committed.  They are DEFINED as stuttering on the   *)
+(* chain state - whatever the messages do, nothing of it may be visible afterwards:                             *)
+(*   Simulate(..)   the two-message transaction [CreateJob id, ExecuteJob id] of an account run through the     *)
+(*                  application's simulation path (gas estimation), or the same two messages of a contract       *)
+(*                  dispatched on a cache context that is dropped;                                              *)
+(*   RolledBack(..) the delivered transaction [CreateJob id, ExecuteJob id, ExecuteJob of an unknown id]: the    *)
+(*                  LAST message fails, so the effects of the earlier ones are rolled back.                      *)
+(*   Query(id)      the job query; it answers from the committed store.                                         *)
+(* The job named by the discarded messages is carried in the request record only.                               *)
+Discarded(kind, who, via, id, c, t, p, sp, m, v) ==
+  /\ UNCHANGED <<jobs, vq>> /\ added' = <<>>
+  /\ Done(Rec(kind, who, who, via, id, c, t, p, sp, m, v, 0), "discarded")
+Simulate(who, via, id, c, t, p, sp, m, v)  == Discarded("Simulate", who, via, id, c, t, p, sp, m, v)
+RolledBack(who, id, c, t, p, sp, m, v)     == Discarded("RolledBack", who, "tx", id, c, t, p, sp, m, v)
+Query(id) ==
+  /\ UNCHANGED <<jobs, vq>> /\ added' = <<>>
+  /\ Done(Rec("Query", 0, 0, "", id, 0, 0, 0, "", FALSE, FALSE, 0), IF id \in DOMAIN jobs THEN "found" ELSE "notfound")
+
 Vias(who) == IF who \in Accounts THEN {"tx"} ELSE {"wasm", "legacy"}
 
 \* spellings a request can use for the caller's payload: any in a transaction (pg = 1), the bare one otherwise
 ExecSp(via, pg) == IF via = "tx" /\ pg = 1 THEN Spellings ELSE {"bare"}
 
-Next ==
+NextCore ==
   \E who \in Callers, as \in Callers, id \in JobIds \cup {BadId} :
      \/ \E c \in Chains, t \in Targets, p \in Payloads, sp \in Spellings, m \in BOOLEAN, v \in BOOLEAN :
            Create(who, IF who \in Contracts THEN who ELSE as, IF who \in Accounts THEN "tx" ELSE "wasm", id, c, t, p, sp, m, v)
      \/ \E via \in Vias(who), pg \in 0..2 : \E sp \in ExecSp(via, pg) :
            /\ (via # "tx" => pg # 2)
            /\ Execute(who, IF via = "legacy" THEN who ELSE as, via, id, pg, sp)
+NextPert ==
+  \E who \in Callers, id \in JobIds \cup {BadId} :
+     \/ \E c \in Chains, t \in Targets, p \in Payloads, sp \in Spellings, m \in BOOLEAN, v \in BOOLEAN :
+           \/ Simulate(who, IF who \in Accounts THEN "tx" ELSE "wasm", id, c, t, p, sp, m, v)
+           \/ who \in Accounts /\ RolledBack(who, id, c, t, p, sp, m, v)
+     \/ Query(id)
+Next == NextCore \/ NextPert
 
 Spec == Init /\ [][Next]_vars
 
@@ -208,6 +233,10 @@ CallIsStoredCall == (Ok /\ A.act = "Execute" /\ A.id \in DOMAIN jobs) =>
 CallerAppended == (Ok /\ A.act = "Execute") =>
   /\ \A i \in Calls(added') : added'[i].sfx = A.who
   /\ (A.via = "tx" => A.who = A.as)
+\* the job query answers from the committed store
+QueryIsStored == (A.act = "Query") => ((res' = "found") = (A.id \in DOMAIN jobs) /\ res' \in {"found", "notfound"})
+\* what ran on a discarded branch leaves nothing behind
+DiscardedIsInvisible == (A.act \in {"Simulate", "RolledBack"}) => (jobs' = jobs /\ vq' = vq /\ added' = <<>> /\ ~Ok)
 \* a failed request - and any request that is not an execution - enqueues no contract call
 FailureEnqueuesNothing == ~(Ok /\ A.act = "Execute") => Calls(added') = {}
 
@@ -217,4 +246,6 @@ PA_ExactlyOneCall         == [][ExactlyOneCall]_vars
 PA_CallIsStoredCall       == [][CallIsStoredCall]_vars
 PA_CallerAppended         == [][CallerAppended]_vars
 PA_FailureEnqueuesNothing == [][FailureEnqueuesNothing]_vars
+PA_QueryIsStored          == [][QueryIsStored]_vars
+PA_DiscardedIsInvisible   == [][DiscardedIsInvisible]_vars
 =============================================================================
